@@ -845,26 +845,38 @@ theorem splitF_inv (left : Nat) : InvPreserving (splitF left) := by
 
 /-! ### the machine -/
 
-def StInv (st : St) : Prop := (∀ v ∈ st.pool, v.Inv) ∧ (∀ b ∈ st.caps, Clean b) ∧ Clean st.out
+def StInv (st : St) : Prop := (∀ v ∈ st.pool, v.Inv) ∧ (∀ b ∈ st.caps, Clean b) ∧ Clean st.outR
+
+theorem stInv_init : StInv ({} : St) :=
+  ⟨fun v hv => by simp [Array.mem_def] at hv, fun b hb => (by cases hb), Clean.nil⟩
+
+theorem Clean.reverse {s : TStr} (h : Clean s) : Clean s.reverse := h.mono fun _ hm => List.mem_reverse.mp hm
+
+theorem StInv.out_clean {st : St} (h : StInv st) : Clean st.out := h.2.2.reverse
+
+theorem pool_mem {st : St} {i : Nat} {v : V} (h : st.pool[i]? = some v) : v ∈ st.pool := by
+  rw [Array.getElem?_eq_some_iff] at h
+  obtain ⟨hi, rfl⟩ := h
+  exact Array.getElem_mem hi
 
 theorem StInv.write {st : St} {s : TStr} (h : StInv st) (hs : Clean s) : StInv (st.write s) := by
   obtain ⟨hp, hc, ho⟩ := h
   unfold St.write
   split
-  · exact ⟨hp, hc, ho.append hs⟩
+  · exact ⟨hp, hc, hs.reverse.append ho⟩
   · rename_i b r heq
     refine ⟨hp, ?_, ho⟩
     intro x hx
     rw [heq] at hc
     rcases List.mem_cons.mp hx with rfl | hx
-    · exact (hc b List.mem_cons_self).append hs
+    · exact hs.reverse.append (hc b List.mem_cons_self)
     · exact hc x (List.mem_cons_of_mem _ hx)
 
 theorem StInv.push {st : St} {v : V} (h : StInv st) (hv : v.Inv) : StInv (st.push v) := by
   obtain ⟨hp, hc, ho⟩ := h
   refine ⟨?_, hc, ho⟩
   intro x hx
-  simp only [St.push, List.mem_append, List.mem_singleton] at hx
+  simp only [St.push_eq, Array.mem_push] at hx
   rcases hx with hx | rfl
   · exact hp x hx
   · exact hv
@@ -874,7 +886,7 @@ theorem args_inv {st : St} {is : List Nat} {xs : List V} (h : StInv st) (ha : st
   unfold St.args at ha
   refine mapM_all (P := V.Inv) ha ?_
   intro i _ b hb
-  exact h.1 b (List.mem_of_getElem? hb)
+  exact h.1 b (pool_mem hb)
 
 theorem insertKV_inv {k : String} {v : V} (hv : v.Inv) :
     ∀ (l : List (String × V)), (∀ kv ∈ l, kv.2.Inv) → ∀ kv ∈ insertKV k v l, kv.2.Inv := by
@@ -939,7 +951,7 @@ theorem step_preserves_inv (s : Step) (st st' : St) (hok : StepOk s) (h : StInv 
       intro ki _ b hb
       simp only [Option.map_eq_some_iff] at hb
       obtain ⟨v, hv, rfl⟩ := hb
-      exact h.1 v (List.mem_of_getElem? hv)
+      exact h.1 v (pool_mem hv)
     exact foldl_insertKV_inv kvs [] hall (by intro kv hkv; cases hkv)
   | value v => simp only [Step.run, Option.some.injEq] at hr; subst hr; exact h.push hok
   | raw x => simp only [Step.run, Option.some.injEq] at hr; subst hr; exact h.write (Clean.ofTmpl x)
@@ -947,7 +959,7 @@ theorem step_preserves_inv (s : Step) (st st' : St) (hok : StepOk s) (h : StInv 
     simp only [StepOk] at hok; subst hok
     simp only [Step.run, Option.map_eq_some_iff] at hr
     obtain ⟨v, hv, rfl⟩ := hr
-    exact h.write (writeEscaped_html_clean (h.1 v (List.mem_of_getElem? hv)))
+    exact h.write (writeEscaped_html_clean (h.1 v (pool_mem hv)))
   | beginCapture =>
     simp only [Step.run, Option.some.injEq] at hr; subst hr
     refine ⟨h.1, ?_, h.2.2⟩
@@ -964,7 +976,7 @@ theorem step_preserves_inv (s : Step) (st st' : St) (hok : StepOk s) (h : StInv 
       rw [heq] at hc
       have base : StInv { st with caps := rest } :=
         ⟨h.1, fun b hb => hc b (List.mem_cons_of_mem _ hb), h.2.2⟩
-      exact base.push (inv_str fun _ => hc buf List.mem_cons_self)
+      exact base.push (inv_str fun _ => (hc buf List.mem_cons_self).reverse)
     · cases hr
   | macroReturn m =>
     simp only [Step.run] at hr
@@ -975,7 +987,7 @@ theorem step_preserves_inv (s : Step) (st st' : St) (hok : StepOk s) (h : StInv 
       rw [heq] at hc
       have base : StInv { st with caps := rest } :=
         ⟨h.1, fun b hb => hc b (List.mem_cons_of_mem _ hb), h.2.2⟩
-      exact base.push (inv_str fun _ => hc buf List.mem_cons_self)
+      exact base.push (inv_str fun _ => (hc buf List.mem_cons_self).reverse)
     · cases hr
   | apply g is =>
     simp only [Step.run] at hr
